@@ -36,7 +36,7 @@ PKG = ng.PKG
 
 INVS = ("INVARIANT TypeOK\nINVARIANT PublicPathIsSchemaName\nINVARIANT NoScopeClash\n"
         "INVARIANT NoSelfNamedMember\nINVARIANT TagPathsUnique\nINVARIANT ManglingShape\n")
-CLASH_SKELETONS = ["T1", "T2", "T3", "T4", "M1", "M2", "M3", "X1", "U1", "U2"]
+CLASH_SKELETONS = ["T1", "T2", "T3", "T4", "M1", "M2", "M3", "M4", "X1", "U1", "U2"]
 # (skeleton, part of the discipline left out) -> TLC has to find a violated requirement
 FLAWS = [("M1", "entry"), ("T1", "member"), ("T2", "inline"), ("T1", "types")]
 
